@@ -599,7 +599,7 @@ func TestC07(t *testing.T) {
 	}, c07CheckAST, true)
 
 	// (1b) random deeper ASTs
-	RunRapid(c, t, Sub[c07Case]{Kind: "ast-random", Quick: 120_000, Thorough: 4_000_000,
+	RunRapid(c, t, Sub[c07Case]{Kind: "ast-random", Quick: 600_000, Thorough: 4_000_000,
 		Gen: func(t *rapid.T) c07Case {
 			return c07Case{AST: genT(t, rapid.IntRange(1, 4).Draw(t, "depth"), false), Vars: genVars(t)}
 		}, Check: c07CheckAST})
@@ -627,7 +627,7 @@ func TestC07(t *testing.T) {
 	}, c07CheckString, true)
 
 	// (2b) random longer strings over the same alphabet
-	RunRapid(c, t, Sub[c07StrCase]{Kind: "strings-random", Quick: 60_000, Thorough: 3_000_000,
+	RunRapid(c, t, Sub[c07StrCase]{Kind: "strings-random", Quick: 300_000, Thorough: 3_000_000,
 		Gen: func(t *rapid.T) c07StrCase {
 			n := rapid.IntRange(6, 14).Draw(t, "len")
 			b := make([]byte, n)
@@ -638,7 +638,7 @@ func TestC07(t *testing.T) {
 		}, Check: c07CheckString})
 
 	// (4) the same templates inside a compose document
-	RunRapid(c, t, Sub[c07DocCase]{Kind: "document", Quick: 1500, Thorough: 60_000,
+	RunRapid(c, t, Sub[c07DocCase]{Kind: "document", Quick: 4000, Thorough: 60_000,
 		Gen: func(t *rapid.T) c07DocCase {
 			return c07DocCase{AST: genT(t, rapid.IntRange(1, 3).Draw(t, "depth"), false), Vars: genVars(t)}
 		}, Check: c07CheckDoc})
